@@ -16,6 +16,10 @@ CHECKS = {
   text="Lean theorems for all request lines and header blocks: the answering protocol is the first in the configured order whose predicate accepts (everything before it rejects), its `secure` flag equals the connection's TLS flag for all nine classes, the shipped list (extracted from conf/pygopherd.conf) is total because both catch-alls are present, detection is a function of (order, TLS flag, first line, header lines); documented shapes of Gopher+, HTTP, Gemini, Spartan; the sniff is TLS iff first byte 0x16 and consumes nothing. Tie: class chosen by the real ProtocolMultiplexer vs the model on a near-miss grammar, both TLS values, shipped order and seeded permutations/sub-lists; wrap_socket on a socketpair for all 256 first bytes (complete).",
   note="partial: MSG_PEEK in the kernel and the TLS record layer are runtime; the WAP header regex is mirrored by hand; Lean kernel + standard axioms; harness trusted",
   technique="Lean 4 proof of the detection model + differential correspondence + exhaustive first-byte enumeration"),
+ "C03": dict(
+  text="Lean: request parsing and response framing are total functions (one Parsed value, one response, for every line, TLS flag and handler outcome — by type and stated); for every message text a Gemini/Spartan status line is a single line (CR/LF collapsed, proved for all strings), error statuses carry no body, Gopher+ responses start with --2 / +-2 / +N on their own line, every HTTP and WAP response of every outcome starts with an HTTP/1.0 status line and has a terminated header block, HEAD has no body; the shipped protocol list always finds a protocol (C02); and on an unchanged directory any history of earlier listings and clock ticks leaves the answer to a listing request equal to the listing of that directory (through C10's cache invariant, by induction over the history). Tie: not-found framing of all six wire formats and status-line sanitising vs Model/Frame. Oracle: seeded malformed and mostly-valid requests in 9 syntaxes x 2 handler lists — one response accepted by independent validators, no exception leaves the handler, no unhandled error class logged, time bound; then every request replayed on a fresh copy of the tree must give the same masked response (history independence).",
+  note="partial: wall-clock bound is reported, only a 60 s hang fails; handler bodies that are library calls (mailbox, ZIP bytes, HTML title, TAL, scripts) enter as outcomes; content is well-formed in the sense of C08/C09",
+  technique="Lean 4 proof (framing validity, status-line integrity, history independence via the cache invariant) + correspondence + validator and fresh-copy oracles"),
  "C04": dict(
   text="Lean theorems for all byte strings: the read(copyBlock) loop (block size extracted from VFS_Real.copyto) reproduces the bytes for every positive block size, with non-empty blocks of at most one block; the Gopher+ '+N' header parses back to exactly the body length and the body to the file; unknown size gives '+-2'; HEAD is the GET headers with no body; the WAP text-to-WML conversion is invertible line by line up to right-stripping (and injective); MIME type is the table's answer adjusted per protocol. Tie: blocks written by the real copyto, whole Gopher+/HTTP/WML responses and MIME types vs the model. Oracle: body==file bytes, +N==len, HEAD==GET headers, type==mimetypes, independent WML inverse, for sizes around every multiple of 4096, binary/CRLF/invalid-UTF-8 contents, hostile names, 9 protocol syntaxes, both handler lists.",
   note="partial: TOCTOU between stat and open, TLS record layer and decompressor/script output are runtime (length oracle only); mimetypes.guess_type is an oracle fed to the model",
